@@ -225,7 +225,16 @@ func (f *File) Write(b []byte) (int, error) {
 		if f.closed {
 			return 0, &fs.PathError{Op: "write", Path: f.name, Err: fs.ErrClosed}
 		}
-		f.n.data = append(f.n.data, b...)
+		// POSIX: with O_APPEND every write goes to the end of the file; without it the write goes to
+		// the descriptor's own offset (0 after open), over whatever is there
+		if f.flag&O_APPEND != 0 {
+			f.pos = int64(len(f.n.data))
+		}
+		if end := f.pos + int64(len(b)); end > int64(len(f.n.data)) {
+			f.n.data = append(f.n.data, make([]byte, end-int64(len(f.n.data)))...)
+		}
+		copy(f.n.data[f.pos:], b)
+		f.pos += int64(len(b))
 		f.n.mtime = vtime.Now()
 		return len(b), nil
 	}
